@@ -123,5 +123,61 @@ fn main() {
             }
         }
     }
+    // large structured graphs (deep chains, ladders, wide fans, one long cycle): size-dependent behaviour
+    // (depth limits, early exits) is invisible on the 4-node family above
+    for (gname, names, es) in big_graphs() {
+        for (rname, req) in [("all", names.clone()), ("first", vec![names[0].clone()]), ("first+last", vec![names[0].clone(), names[names.len() - 1].clone()]), ("every-third", names.iter().step_by(3).cloned().collect::<Vec<_>>())] {
+            let input = format!("{} requested={}", gname, rname);
+            let build2 = |rev: bool| { let mut g = TypeDependencyGraph::new(); let mut l = es.clone(); if rev { l.reverse(); } for (a, b) in l { g.add_dependency(a, b); } g };
+            let types: HashSet<String> = req.iter().cloned().collect();
+            let check = |res: &Vec<String>| -> Option<String> {
+                // reachability by BFS from the requested names
+                let mut reach: HashSet<String> = types.clone();
+                let mut todo: Vec<String> = types.iter().cloned().collect();
+                while let Some(x) = todo.pop() { for (a, b) in &es { if *a == x && reach.insert(b.clone()) { todo.push(b.clone()); } } }
+                let pos: std::collections::HashMap<&String, usize> = res.iter().enumerate().map(|(i, n)| (n, i)).collect();
+                if pos.len() != res.len() { return Some("a name is returned twice".into()); }
+                for n in &reach { if !pos.contains_key(n) { return Some(format!("{} is requested or a transitive dependency but missing", n)); } }
+                for n in res { if !reach.contains(n) { return Some(format!("{} returned but not reachable from the requested set", n)); } }
+                if !gname.contains("cycle") { for (a, b) in &es { if let (Some(pa), Some(pb)) = (pos.get(a), pos.get(b)) { if pb > pa { return Some(format!("{} depends on {} but is placed before it", a, b)); } } } }
+                None
+            };
+            rep.case("topological_sort_types", &input, &|| { let res = build2(false).topological_sort_types(&types); match check(&res) { None => Ok(format!("{} names", res.len())), Some(w) => Err(w) } });
+            if !gname.contains("cycle") {
+                rep.case("acyclic_order", &input, &|| { let res = build2(true).topological_sort_types(&types); match check(&res) { None => Ok(format!("{} names", res.len())), Some(w) => Err(w) } });
+            }
+            rep.case("determinism", &input, &|| { let (a, b) = (build2(false).topological_sort_types(&types), build2(true).topological_sort_types(&types)); if a == b { Ok(format!("{} names", a.len())) } else { Err("two constructions of the same graph gave different orders".into()) } });
+        }
+    }
     rep.finish()
+}
+
+/// (name, node names, edges dependent -> dependency)
+fn big_graphs() -> Vec<(String, Vec<String>, Vec<(String, String)>)> {
+    let mut v = Vec::new();
+    for n in [33usize, 40, 70, 130] {
+        // chain whose head sorts first (Level000 -> Level001 -> ...) and chain whose head sorts last
+        let up: Vec<String> = (0..n).map(|i| format!("Level{:03}", i)).collect();
+        v.push((format!("chain-{}-head-first", n), up.clone(), (0..n - 1).map(|i| (up[i].clone(), up[i + 1].clone())).collect()));
+        let down: Vec<String> = (0..n).map(|i| format!("Level{:03}", n - 1 - i)).collect();
+        v.push((format!("chain-{}-head-last", n), down.clone(), (0..n - 1).map(|i| (down[i].clone(), down[i + 1].clone())).collect()));
+        // ladder: two chains with rungs
+        let l: Vec<String> = (0..n).map(|i| format!("L{:03}", i)).collect();
+        let r: Vec<String> = (0..n).map(|i| format!("R{:03}", i)).collect();
+        let mut es = Vec::new();
+        for i in 0..n - 1 { es.push((l[i].clone(), l[i + 1].clone())); es.push((r[i].clone(), r[i + 1].clone())); es.push((l[i].clone(), r[i + 1].clone())); }
+        let mut names = l.clone(); names.extend(r.clone());
+        v.push((format!("ladder-{}", n), names, es));
+        // fan: one root with n dependencies, each with one shared leaf
+        let root = "Root".to_string();
+        let mids: Vec<String> = (0..n).map(|i| format!("Mid{:03}", i)).collect();
+        let mut es = Vec::new();
+        for m in &mids { es.push((root.clone(), m.clone())); es.push((m.clone(), "Leaf".to_string())); }
+        let mut names = vec![root.clone()]; names.extend(mids.clone()); names.push("Leaf".to_string());
+        v.push((format!("fan-{}", n), names, es));
+        // one long cycle
+        let c: Vec<String> = (0..n).map(|i| format!("C{:03}", i)).collect();
+        v.push((format!("cycle-{}", n), c.clone(), (0..n).map(|i| (c[i].clone(), c[(i + 1) % n].clone())).collect()));
+    }
+    v
 }
